@@ -246,6 +246,10 @@ func (g *schemaGenerator) generateDeclaredType(t *schemas.Type, scope nameScope)
 		return &codegen.NamedType{Decl: decl}, nil
 	}
 
+	if named, ok := g.output.namedBySchema[t]; ok {
+		return named, nil
+	}
+
 	if !g.output.isUniqueTypeName(scope.string()) {
 		odecl := g.output.declsByName[scope.string()]
 
@@ -283,6 +287,8 @@ func (g *schemaGenerator) generateDeclaredType(t *schemas.Type, scope nameScope)
 		// Don't declare named types under a new name.
 		delete(g.output.declsBySchema, t)
 		delete(g.output.declsByName, decl.Name)
+
+		g.output.namedBySchema[t] = theType
 
 		return theType, nil
 	}
